@@ -129,6 +129,9 @@ def rand_scenario(rng, family, policies=False):
             hs.append(rng.choice(p["good"]))
     elif family == "twohash":
         hs = rng.sample(p["good"][:3], rng.randint(1, 2)) + rng.sample(p["h2"], rng.randint(1, 2))
+        if rng.random() < 0.35:
+            # a rejecting HTLC of the first hash as well: a fail request may race with readiness while the other hash waits
+            hs.insert(rng.randint(0, len(hs)), rng.choice(p["bad"][:3]))
     elif family == "overlap":
         # two successive fully funding sets
         hs = [p["good"][2], p["good"][0], p["good"][1]]
